@@ -31,7 +31,7 @@ Print Assumptions C07_cfb_dec_par.
    = n single generations *)
 Theorem C07_core_generic : forall (St : Type) (K : score St) (P : St -> Prop),
   (forall st, P st -> P (fst (sc_gen K st))) ->
-  (forall st, P st -> sc_gen_par K st = gen_n K (sc_w K) st) ->
+  (1 < sc_w K -> forall st, P st -> sc_gen_par K st = gen_n K (sc_w K) st) ->
   forall n st, P st -> ks_blocks K n st = gen_n K n st.
 Proof. intros St K P H1 H2 n st. apply ks_blocks_gen_n; auto. Qed.
 Print Assumptions C07_core_generic.
